@@ -256,10 +256,10 @@ partial def parseTy : Sexp → Option TyExpr
   | _ => none
 
 def parseFieldDef : Sexp → Option FieldDef
-  | .list [.atom "field", ident, ty, rename, .atom skip, dflt, .list aliases, doc] => do
+  | .list [.atom "field", ident, ty, rename, .atom skip, dflt, .list aliases, doc, .atom flatten] => do
     let d : Option Json ← (match dflt with | .atom "-" => some none | j => (parseJson j).map some)
     pure { ident := (← atomBytes? ident), ty := (← parseTy ty), rename := (← optBytes? rename), skip := skip == "1",
-           default := d, aliases := (← aliases.mapM atomBytes?), doc := (← optBytes? doc) }
+           default := d, aliases := (← aliases.mapM atomBytes?), doc := (← optBytes? doc), flatten := flatten == "1" }
   | _ => none
 
 def parseShape : Sexp → Option VariantShape
@@ -278,6 +278,8 @@ def parseTypeDef : Sexp → Option TypeDef
   | .list [.atom "struct", ident, name, doc, .list aliases, .atom rule, .list (.atom "fields" :: fields)] => do
     pure (.struct (← atomBytes? ident) (← atomBytes? name) (← optBytes? doc) (← aliases.mapM atomBytes?) (← ruleOf rule)
             (← fields.mapM parseFieldDef))
+  | .list [.atom "transparent", ident, .list (.atom "fields" :: fields)] => do
+    pure (.transparent (← atomBytes? ident) (← fields.mapM parseFieldDef))
   | .list [.atom "enum", ident, name, doc, .list aliases, .atom rule, .atom rulef, .list (.atom "variants" :: vs)] => do
     pure (.enum (← atomBytes? ident) (← atomBytes? name) (← optBytes? doc) (← aliases.mapM atomBytes?) (← ruleOf rule) (← ruleOf rulef)
             (← vs.mapM parseVariantDef))
